@@ -216,6 +216,26 @@ def check(ctx: Ctx) -> list[RuleResult]:
     sleeps = [n for n in own_nodes(expire.node) if isinstance(n, ast.Await) and "asyncio.sleep(delay)" == norm(n.value)]
     if len(delays) < 2 or len(sleeps) != 1:
         raise AnalysisError("expire_state_on_timeout: delay definitions / sleep not found")
+    # net effect of one wait on the exponent, evaluated over the finite domain 0..3 established above (set-valued abstract
+    # interpretation of the coroutine's own statements; nothing is executed): if the sleep completes (= the attempt went
+    # unanswered) the exponent must end at min(3, m+1) - the *next* wait is twice as long, capped at 8x; if the sleep is
+    # cancelled (= answered in time) it must not have grown
+    r3.instances += 1
+    r3.nontrivial += 1
+    net = _net_effect(expire.node, sleeps[0])
+    if net is None:
+        r3.fail(f"{expire.short}:net-effect-undecided", expire.loc(), "the exponent's updates around the sleep are not in a shape the evaluator understands (assignments of min/max/+/- expressions)")
+    else:
+        bad = []
+        for m0, (at_sleep, after) in sorted(net.items()):
+            if any(v > m0 for v in at_sleep):
+                bad.append(f"m={m0}: an answered wait leaves the exponent at {sorted(at_sleep)} (> {m0})")
+            if after != {min(3, m0 + 1)}:
+                bad.append(f"m={m0}: an unanswered wait leaves the exponent at {sorted(after)}, expected {min(3, m0 + 1)}")
+        if bad:
+            r3.fail(f"{expire.short}:net-effect", expire.loc(sleeps[0]), "the wait does not double after each unanswered attempt (or grows after an answered one)", bad)
+        else:
+            r3.ok({"net_effect": {str(m0): {"answered": sorted(a), "unanswered": sorted(b)} for m0, (a, b) in sorted(net.items())}})
     out.append(r3)
 
     # ---- R4 ---------------------------------------------------------------------------
@@ -318,6 +338,70 @@ def _no_pending_edges(t: ast.AST) -> list[str]:
     if txt == "self.is_sending":
         return ["false"]
     return []
+
+
+def _net_effect(fn: ast.AST, sleep: ast.Await) -> "dict[int, tuple[set[int], set[int]]] | None":
+    """{m0: (exponent values when the sleep starts, values after the statements that follow a completed sleep)}."""
+    body = list(fn.body)  # type: ignore[attr-defined]
+    idx = next((i for i, st in enumerate(body) if any(n is sleep for n in ast.walk(st))), None)
+    if idx is None or not isinstance(body[idx], ast.Expr):
+        return None
+    KEY = "self._multiplier"
+
+    class Undecided(Exception):
+        pass
+
+    def ev(e: ast.expr, env: dict[str, set[int]]) -> set[int]:
+        if isinstance(e, ast.Constant) and isinstance(e.value, int) and not isinstance(e.value, bool):
+            return {e.value}
+        if isinstance(e, (ast.Attribute, ast.Name)) and norm(e) in env:
+            return set(env[norm(e)])
+        if isinstance(e, ast.BinOp) and isinstance(e.op, (ast.Add, ast.Sub)):
+            a, b = ev(e.left, env), ev(e.right, env)
+            return {x + y if isinstance(e.op, ast.Add) else x - y for x in a for y in b}
+        if isinstance(e, ast.Call) and norm(e.func) in ("min", "max") and len(e.args) == 2 and not e.keywords:
+            a, b = ev(e.args[0], env), ev(e.args[1], env)
+            f2 = min if norm(e.func) == "min" else max
+            return {f2(x, y) for x in a for y in b}
+        raise Undecided(norm(e))
+
+    def touches(st: ast.AST, env: dict[str, set[int]]) -> bool:
+        for n in ast.walk(st):
+            if isinstance(n, (ast.Attribute, ast.Name)) and isinstance(getattr(n, "ctx", None), ast.Store) and (norm(n) == KEY or norm(n) in env):
+                return True
+        return False
+
+    def run(stmts: list[ast.stmt], env: dict[str, set[int]]) -> dict[str, set[int]]:
+        for st in stmts:
+            if isinstance(st, ast.Assign):
+                rhs_env = dict(env)  # tuple assignment evaluates the whole right-hand side first
+                for t, v in _pairs(st):
+                    k = norm(t)
+                    if k == KEY or k in env or (isinstance(t, ast.Name) and any(norm(x) in env for x in ast.walk(v) if isinstance(x, (ast.Name, ast.Attribute)))):
+                        env[k] = ev(v, rhs_env)
+            elif isinstance(st, ast.AugAssign) and (norm(st.target) == KEY or norm(st.target) in env):
+                fake = ast.BinOp(left=st.target, op=st.op, right=st.value)
+                env[norm(st.target)] = ev(fake, env)
+            elif isinstance(st, ast.If):
+                if touches(st, env):
+                    e1, e2 = run(st.body, dict(env)), run(st.orelse, dict(env))
+                    for k in set(e1) | set(e2):
+                        env[k] = e1.get(k, set()) | e2.get(k, set())
+            elif isinstance(st, (ast.For, ast.While, ast.Try, ast.With, ast.AsyncWith, ast.AsyncFor)):
+                if touches(st, env):
+                    raise Undecided(type(st).__name__)
+        return env
+
+    out: dict[int, tuple[set[int], set[int]]] = {}
+    try:
+        for m0 in range(4):
+            env = run(body[:idx], {KEY: {m0}})
+            at_sleep = set(env[KEY])
+            env = run(body[idx + 1 :], env)
+            out[m0] = (at_sleep, set(env[KEY]))
+    except Undecided:
+        return None
+    return out
 
 
 def _pairs(n: ast.Assign):
